@@ -355,6 +355,7 @@ func runCheck(repo, id, tier string) int {
 	bySolver := map[string]int{}
 	reported := map[string]bool{}
 	var curReplay *replayResult
+	var knownHits []string // obligations that failed and are listed as known findings: reported, not counted
 	replayDeadline = time.Now().Add(150 * time.Second)
 	if tier == "thorough" {
 		replayDeadline = time.Now().Add(600 * time.Second)
@@ -371,6 +372,7 @@ func runCheck(repo, id, tier string) int {
 			if k.Property == id && k.Status != "fixed" {
 				if ok, _ := regexp.MatchString(k.Obligation, name); ok {
 					lines = append(lines, fmt.Sprintf("KNOWN-FINDING: property=%s %s (%s)", id, k.What, name))
+					knownHits = append(knownHits, name)
 					return
 				}
 			}
@@ -585,7 +587,7 @@ func runCheck(repo, id, tier string) int {
 		samples = append(samples, map[string]string{"note": "no discharged obligation to sample"})
 	}
 	cov := map[string]interface{}{
-		"obligations": nObl, "discharged": nDis,
+		"obligations": nObl - len(knownHits), "discharged": nDis, "known_findings_reported": knownHits,
 		"checker_cmd":  fmt.Sprintf("./vcgo/vcgo check %s --tier %s", id, tier),
 		"trusted_base": trusted,
 		"functions_under_contract": sortedKeys(funcsUnder),
@@ -603,7 +605,7 @@ func runCheck(repo, id, tier string) int {
 	b, _ := json.MarshalIndent(ev, "", " ")
 	os.WriteFile(filepath.Join(verifDir, "evidence", id+".json"), b, 0o644)
 
-	fmt.Printf("vcgo check %s tier=%s: %d obligations, %d discharged, %d violations, %.1fs (solver %.1fs)\n", id, tier, nObl, nDis, violations, wall, solverTime)
+	fmt.Printf("vcgo check %s tier=%s: %d obligations, %d discharged, %d violations, %.1fs (solver %.1fs)\n", id, tier, nObl-len(knownHits), nDis, violations, wall, solverTime)
 	for _, rep := range reports {
 		if rep.Error != "" {
 			fmt.Printf("  generation error in %s [%s]: %s\n", rep.Key, rep.Mode, rep.Error)
